@@ -2,19 +2,20 @@
 (* Trace validation for C12.  Per run: Case, Vars?, Obj*, Sol?, Exit.         *)
 EXTENDS ObjSelect, Json, IOUtils, TLC
 Lines == ndJsonDeserialize(IOEnv.TRACE)
-VARIABLES l, cur, objs, vlb, vub, sol
-vars == <<l, cur, objs, vlb, vub, sol>>
+VARIABLES l, cur, objs, vlb, vub, sol, seen
+\* seen: for each group of runs that differ only in the ORDER of the options, the outcome of the first one
+vars == <<l, cur, objs, vlb, vub, sol, seen>>
 E == Lines[l]
 Step == l' = l + 1
 Bad(what) == PrintT(<<"BAD", ToJson([line |-> l, id |-> cur.id, what |-> what])>>)
 NoSol == [present |-> FALSE, objno |-> -2, code |-> -2, msgError |-> FALSE]
 
-TCase == E.e = "Case" /\ Step /\ cur' = E /\ objs' = <<>> /\ vlb' = <<>> /\ vub' = <<>> /\ sol' = NoSol
-TVars == E.e = "Vars" /\ Step /\ vlb' = E.lb /\ vub' = E.ub /\ UNCHANGED <<cur, objs, sol>>
-TObj  == /\ E.e = "Obj" /\ Step /\ UNCHANGED <<cur, vlb, vub, sol>>
+TCase == E.e = "Case" /\ Step /\ cur' = E /\ objs' = <<>> /\ vlb' = <<>> /\ vub' = <<>> /\ sol' = NoSol /\ UNCHANGED seen
+TVars == E.e = "Vars" /\ Step /\ vlb' = E.lb /\ vub' = E.ub /\ UNCHANGED <<cur, objs, sol, seen>>
+TObj  == /\ E.e = "Obj" /\ Step /\ UNCHANGED <<cur, vlb, vub, sol, seen>>
          /\ objs' = Append(objs, E)
          /\ E.i = Len(objs) \/ Bad([k |-> "objindex", i |-> E.i])   \* objectives arrive as 0,1,2,...
-TSol  == E.e = "Sol" /\ Step /\ sol' = E /\ UNCHANGED <<cur, objs, vlb, vub>>
+TSol  == E.e = "Sol" /\ Step /\ sol' = E /\ UNCHANGED <<cur, objs, vlb, vub, seen>>
 
 \* which original objectives the delivered list corresponds to: the sequences in
 \* Allowed(...) that match semantically
@@ -27,7 +28,14 @@ TExit ==
   /\ LET al == Allowed(cur.N, cur.objno, cur.multi)
          good == {s \in al : Matches(s)}
          isErr == E.rc # 0 \/ (sol.present /\ sol.code >= 500)
-     IN IF isErr
+         outcome == [good |-> good, echo |-> sol.objno, err |-> isErr]
+     IN /\ seen' = IF cur.grp \in DOMAIN seen THEN seen ELSE [g \in DOMAIN seen \cup {cur.grp} |-> IF g = cur.grp THEN outcome ELSE seen[g]]
+        \* the delivered objectives are a function of the option VALUES: runs that differ only in the
+        \* order in which objno / multiobj were given must agree
+        /\ \/ cur.grp \notin DOMAIN seen
+           \/ (seen[cur.grp].err = isErr /\ seen[cur.grp].echo = sol.objno /\ (isErr \/ seen[cur.grp].good \cap good # {}))
+           \/ Bad([k |-> "order-dependent", echo |-> sol.objno, n |-> Len(objs)])
+        /\ IF isErr
           THEN \/ (ErrorExpected(cur.N, cur.objno, cur.multi) /\ sol.present /\ sol.msgError /\ Len(objs) = 0)
                \/ Bad([k |-> "unexpected-error", rc |-> E.rc, code |-> sol.code])
           ELSE /\ \/ good # {} \/ Bad([k |-> "wrong-objectives", n |-> Len(objs)])
@@ -36,10 +44,10 @@ TExit ==
                   \/ \E s \in good : sol.objno \in EchoAllowed(cur.N, cur.objno, cur.multi, s)
                   \/ Bad([k |-> "echo", objno |-> sol.objno])
                /\ sol.present \/ Bad([k |-> "no-sol"])
-TOther == /\ E.e \notin {"Case", "Vars", "Obj", "Sol", "Exit"} /\ Step /\ UNCHANGED <<cur, objs, vlb, vub, sol>>
+TOther == /\ E.e \notin {"Case", "Vars", "Obj", "Sol", "Exit"} /\ Step /\ UNCHANGED <<cur, objs, vlb, vub, sol, seen>>
           /\ E.e = "Meta" \/ Bad([k |-> "event", ev |-> E.e])
 
-Init == l = 1 /\ cur = [id |-> -1] /\ objs = <<>> /\ vlb = <<>> /\ vub = <<>> /\ sol = NoSol
+Init == l = 1 /\ cur = [id |-> -1] /\ objs = <<>> /\ vlb = <<>> /\ vub = <<>> /\ sol = NoSol /\ seen = [g \in {} |-> 0]
 Next == l <= Len(Lines) /\ (TCase \/ TVars \/ TObj \/ TSol \/ TExit \/ TOther)
 Spec == Init /\ [][Next]_vars
 Finished == (l = Len(Lines) + 1) => PrintT(<<"DONE", ToJson([n |-> Len(Lines)])>>)
